@@ -15,7 +15,7 @@ import (
 
 func init() {
 	Registry["C03"] = Set{
-		Explanation: "Decides the structural clauses of mailbox ordering: O1 every place that selects a mailbox queue from a message priority implements the same table (High->System, Max->Urgent, everything else->Main) — value sets of the switched priority are computed per incoming edge of the queue phi; O1b every push of a message whose Type is Exit or Inspect targets Urgent (meta mailbox: exit and inspect -> system, regular and request -> main); O1c down notifications are routed with Priority High; O1d log messages go to the Log queue; O2 in every ProcessRun implementation found through gen.ProcessBehavior and in the meta handler, the Pop of a lower class is dominated by the failure edge of the Pop of the next higher class (Urgent, System, Main, Log), and after any successful Pop no other Pop is reachable before Pop(Urgent) (one message per scan, restart from the top); O3 queue discipline: head is written only by an atomic swap in Push, tail only by the consumer in Pop, next only by the pusher that obtained the old head.",
+		Explanation: "Decides the structural clauses of mailbox ordering: O1 every place that selects a mailbox queue from a message priority implements the same table (High->System, Max->Urgent, everything else->Main) — value sets of the switched priority are computed per incoming edge of the queue phi; O1b every push of a message whose Type is Exit or Inspect targets Urgent (meta mailbox: exit and inspect -> system, regular and request -> main); O1c down notifications are routed with Priority High; O1d log messages go to the Log queue; O2 in every ProcessRun implementation found through gen.ProcessBehavior and in the meta handler, the Pop of a lower class is dominated by the failure edge of the Pop of the next higher class (Urgent, System, Main, Log), and after any successful Pop no other Pop is reachable before Pop(Urgent) (one message per scan, restart from the top); O3 queue discipline: head is written only by an atomic swap in Push, tail only by the consumer in Pop, next only by the pusher that obtained the old head. Added while probing: O2 holds for every Pop site (several sites per class are allowed); O3 Pop advances tail by exactly one node (tail.next, once per call) and returns that node's value.",
 		NotDecided: []string{
 			"FIFO of the lock-free MPSC algorithm under concurrent producers (only who-writes-what is decided)",
 			"fairness between priority classes",
